@@ -1,0 +1,17 @@
+//go:build verif
+
+package common
+
+// Contracts for govc (see /verif/DESIGN.md). Comment-only file: contributes no code.
+
+// The retry handler decides from the error's class (connErr, proved equal to core.IsConnectionError) whether a
+// request may be re-dispatched; the user-friendly rewrite must therefore keep that class in both directions:
+// a connection failure stays one (C04: failover), anything else does not become one (C02: no re-dispatch).
+//@ func MakeUserFriendlyError
+//@   property C02 C04 C05
+//@   replay common_friendlyerror@internal/adapter/proxy/core : errorsAs(err, "net.Error") ; errorsIs(err, context.Canceled) ; errorsIs(err, context.DeadlineExceeded) ; errorsIs(err, io.EOF)
+//@   ensures (err == nil) == (res == nil)
+//@   uses operr_is_neterr as_val_is_neterr no_ptr_errno as_val_subchain
+//@   requires !errorsAs(err, "*core.ResponseStartedError")
+//@   ensures err != nil && errorsAs(err, "net.Error") && !errorsIs(err, context.Canceled) && !errorsIs(err, context.DeadlineExceeded) && !errorsIs(err, io.EOF) ==> connErr(res)
+//@   ensures err != nil && !connErr(err) && unwrap(res) == nil ==> !connErr(res)
